@@ -110,7 +110,7 @@ def _fresh_here(fn, root):
 
 def release_once(prog, res):
     stat = res.stat("C16.c", "close/fclose of a fileno's descriptor or a port's stream: dominated by the owner's "
-                    "openp test and by the store openp=0 on the same object; one refcount decrement site", floor=3)
+                    "openp test and by the store openp=0 on the same object; refcount discipline", floor=3)
     dec_sites = []
     for fn in prog.all_funcs():
         pos = dom = None
@@ -216,16 +216,28 @@ def release_once(prog, res):
                                 "%s %s: the owner's finalizer (or a second call) releases the same descriptor again, "
                                 "possibly after the number was recycled" % (disc, " and ".join(why)),
                                 unit=fn.unit.display))
-    stat.sites += len(dec_sites)
-    stat.obligations += 1
-    if len(dec_sites) == 1:
-        stat.discharged += 1
-    else:
-        for (fn, i) in dec_sites[1:] or [(None, None)]:
-            res.add(Finding("C16", "C16.c.refcount-sites", fn.name if fn else "-", "fileno.count decrement",
-                            fn.where(i) if fn else "-",
-                            "the shared fileno reference count must be decremented at exactly one site (found %d)"
-                            % len(dec_sites), unit=fn.unit.display if fn else ""))
+    # every decrement of the shared count observes its zero transition (the operand of a comparison with 0 that
+    # guards the release); a decrement that does not is either a leak or a second, unpaired release of a share
+    if not dec_sites:
+        res.add(Finding("C16", "C16.c.refcount-never-dropped", "-", "fileno.count decrement", "-",
+                        "no function decrements the shared fileno reference count: a descriptor shared by ports is never released",
+                        unit=""))
+    for (fn, i) in dec_sites:
+        stat.sites += 1
+        stat.obligations += 1
+        par = fn.parent(i)
+        while par is not None and fn.nodes[par]["k"] in ("paren", "cast"):
+            par = fn.parent(par)
+        pn = fn.nodes[par] if par is not None else None
+        ok = pn is not None and pn["k"] == "bin" and pn["o"] in ("==", "<=", "<", "!=", ">") and \
+            any(fn.const_val(c) == 0 for c in pn["c"])
+        if ok:
+            stat.discharged += 1
+        else:
+            res.add(Finding("C16", "C16.c.refcount-decrement-unobserved", fn.name, "fileno.count decrement", fn.where(i),
+                            "%s decrements the shared fileno reference count without looking at the result: either the last "
+                            "holder's release is lost, or a share is dropped twice and the descriptor is closed under a port "
+                            "that still uses it" % fn.name, unit=fn.unit.display))
     return stat
 
 
